@@ -28,8 +28,8 @@ import (
 func init() {
 	Register(&Prop{
 		ID:   "C20",
-		Expl: "Finds every report site of the three chain-watcher back-ends (dynamic calls through func values that flow from the parameter of an implementation of swap.TxWatcher.AddConfirmationCallback / AddCsvCallback; wrappers are lifted to their call sites) and decides on the SSA CFG, with guard operands named by their origin in the registration call (role-normalised linear facts, bool helpers expanded into the conditions of their true returns): (R1) every confirmation report whose error argument may be nil is dominated by the open-window test start+window-current > 0 and by the back-end's depth test with the exact constants (+1, >=, required depth; RPC first-seen lookup on the registered (txid,start,vout); Electrum tip>0, txHeight>0, txHeight<=tip; LND safety limit and NumConfs delegation), by the nil-error edge of the raw-transaction lookup, and the required depths are wired to the onchain constants; (R2) every CSV report is dominated by confirmations >= csv with csv flowing from the registration (RPC/Electrum) or equal to onchain.BitcoinCsv (LND) and the depth lookup made on the registered txid/vout; (R3) at most once: on every feasible CFG path no report site is reachable after a report site (goroutine loops), the reported key of a watch-list scan reaches the removal call on the success edge, a successful immediate report never reaches the watch-list insertion, observers return true after reporting and the subscriber deregisters on (true, nil); a select arm on ctx.Done() is infeasible exactly when the context comes from context.WithCancel(context.Background()/TODO()) and the cancel func is neither called nor readable (stored only in a field that production code never reads); (R4) in the RPC and Electrum back-ends the failing edge of the window test reaches, on every feasible path before any return or re-evaluation, a confirmation report whose error is definitely non-nil. Guards and reports may sit in in-module helpers: facts of bool- and error-returning helpers are instantiated with the arguments of the call, a report inside a helper is judged under the facts that hold at every call of that helper, and the path rules R3/R4 also see the calls of helpers that contain a report. A VIOLATION is reported only when every dominating condition was interpreted and the required fact is positively absent (or a CFG path positively exists); conditions the rules cannot look into (non-expandable helper results, bool variables) make the obligation undecided instead. The quantifier is over all report sites and all CFG paths of the watcher functions, i.e. all block sequences the watcher can be driven through.",
-		NotD: "Reorganisations, out-of-sync or stale RPC answers, that GetTxOut / Electrum history / lnd notifications tell the truth; the internals of IsTxInMempoolOrRange and getHeight (anchored by callee identity only); that the swap id passed to the callback is the registered one; uint32 wrap-around of start+window; duplicate registrations of one swap (each registration is reported at most once, two registrations may report twice); a failed callback (non-nil result) is retried by design in the scanning back-ends; R4 is not claimed for LND (its window is the constant safety limit and lnd/txwatcher.go has no failure form of the report); de-duplication maps of the LND registrations.",
+		Expl: "Finds every report site of the three chain-watcher back-ends (dynamic calls through func values that flow from the parameter of an implementation of swap.TxWatcher.AddConfirmationCallback / AddCsvCallback; wrappers are lifted to their call sites) and decides on the SSA CFG, with guard operands named by their origin in the registration call (role-normalised linear facts, bool helpers expanded into the conditions of their true returns): (R1) every confirmation report whose error argument may be nil is dominated by the open-window test start+window-current > 0 and by the back-end's depth test with the exact constants (+1, >=, required depth; RPC first-seen lookup on the registered (txid,start,vout); Electrum tip>0, txHeight>0, txHeight<=tip; LND safety limit and NumConfs delegation), by the nil-error edge of the raw-transaction lookup, and the required depths are wired to the onchain constants; (R2) every CSV report is dominated by confirmations >= csv with csv flowing from the registration (RPC/Electrum) or equal to onchain.BitcoinCsv (LND) and the depth lookup made on the registered txid/vout; (R3) at most once: on every feasible CFG path no report site is reachable after a report site (goroutine loops), the reported key of a watch-list scan reaches the removal call on the success edge, a successful immediate report never reaches the watch-list insertion, observers return true after reporting and the subscriber deregisters on (true, nil); a select arm on ctx.Done() is infeasible exactly when the context comes from context.WithCancel(context.Background()/TODO()) and the cancel func is neither called nor readable (stored only in a field that production code never reads); (R4) in the RPC and Electrum back-ends the failing edge of the window test reaches, on every feasible path before any return or re-evaluation, a confirmation report whose error is definitely non-nil. (R6) the CSV reports of one watcher are serialised: the call sites of its CSV callback (grouped by the struct field the func value is loaded from) all run while one common lock is certainly held (locks acquired in the function or held by every synchronous caller, from the C18 lock engine; a go statement starts with none), a site that holds none of the locks all other sites hold is reported with both sites named, and a scan that selects an entry, reports it and removes it later (RPC HandleCsvTx, the Electrum subscriber loop) holds one lock across the three steps whenever it can be started from more than one goroutine / entry point; (R7) monotone tip: for every integer field that a GetBlockHeight implementation reports, every store of a notification-derived height is reached only on ways (back through predecessor edges, bool helpers and the callers of a setter helper) that establish new > old or old <= 0, and the bool result of the accepting function - the flag that makes the caller evaluate the observers - can be true only behind that store. Guards and reports may sit in in-module helpers: facts of bool- and error-returning helpers are instantiated with the arguments of the call, a report inside a helper is judged under the facts that hold at every call of that helper, and the path rules R3/R4 also see the calls of helpers that contain a report. A VIOLATION is reported only when every dominating condition was interpreted and the required fact is positively absent (or a CFG path positively exists); conditions the rules cannot look into (non-expandable helper results, bool variables) make the obligation undecided instead. The quantifier is over all report sites and all CFG paths of the watcher functions, i.e. all block sequences the watcher can be driven through.",
+		NotD: "Reorganisations, out-of-sync or stale RPC answers, that GetTxOut / Electrum history / lnd notifications tell the truth; the internals of IsTxInMempoolOrRange and getHeight (anchored by callee identity only); that the swap id passed to the callback is the registered one; uint32 wrap-around of start+window; duplicate registrations of one swap (each registration is reported at most once, two registrations may report twice); a failed callback (non-nil result) is retried by design in the scanning back-ends; R4 is not claimed for LND (its window is the constant safety limit and lnd/txwatcher.go has no failure form of the report); de-duplication maps of the LND registrations; R6 merges all instances of a lock class and does not examine channels or atomics as serialisation; R7 does not decide that the header height itself is truthful, nor tips that are not struct fields of the watcher (the RPC and LND back-ends ask the node on every call).",
 		Run:  runC20,
 	})
 }
@@ -55,17 +55,19 @@ var c20RegRoles = map[string][]string{
 }
 
 type c20X struct {
-	c       *an.Check
-	w       *an.World
-	txw     *types.Named // swap.TxWatcher
-	obs     *types.Named // electrum.TXObserver
-	callers map[*ssa.Function][]ssa.CallInstruction
-	memo    map[ssa.Value]string
-	busy    map[ssa.Value]bool
-	k       map[string]int64 // onchain constants
-	infeas  map[*ssa.Function]map[an.Edge]bool
-	notes   map[*ssa.Function][]string
-	sites   []*c20Site
+	c           *an.Check
+	w           *an.World
+	txw         *types.Named // swap.TxWatcher
+	obs         *types.Named // electrum.TXObserver
+	callers     map[*ssa.Function][]ssa.CallInstruction
+	memo        map[ssa.Value]string
+	busy        map[ssa.Value]bool
+	k           map[string]int64    // onchain constants
+	merges      map[string][]string // merged term name -> leaf roles
+	opaqueTerms map[string]bool     // operands that are results of in-module helpers the linearizer cannot look into
+	infeas      map[*ssa.Function]map[an.Edge]bool
+	notes       map[*ssa.Function][]string
+	sites       []*c20Site
 }
 
 type c20Site struct {
@@ -84,6 +86,15 @@ type c20Site struct {
 	proxy bool
 	under *c20Site
 	must  bool
+	raw   ssa.CallInstruction // for a lifted site: the dynamic call inside the wrapper
+}
+
+// dyn returns the dynamic call of the callback itself.
+func (s *c20Site) dyn() ssa.CallInstruction {
+	if s.raw != nil {
+		return s.raw
+	}
+	return s.instr
 }
 
 // real returns the report a proxy stands for.
@@ -98,10 +109,12 @@ func runC20(c *an.Check) {
 	c.Rule("C20.R1", "every confirmation report that may carry a nil error is dominated by the open-window test, the back-end's exact depth test and the nil-error edge of the raw-tx lookup; required depths are the onchain constants")
 	c.Rule("C20.R2", "every CSV report is dominated by confirmations >= csv (csv from the registration, or onchain.BitcoinCsv for LND) computed for the registered txid/vout")
 	c.Rule("C20.R3", "at most once: after a report no report is reachable on a feasible path; scans remove the reported key / observer on success; ctx.Done() arms are feasible only if someone can call the cancel func")
+	c.Rule("C20.R6", "CSV reports of one watcher are serialised: all call sites of its CSV callback run under one common lock, and a scan that selects, reports and only later removes holds a lock across all three when it can run concurrently with itself")
+	c.Rule("C20.R7", "monotone tip: every store of a notification-derived height into the field GetBlockHeight reports is reached only on edges where new > old (or old <= 0), and the accept flag that triggers the observers is true only after such a store")
 	c.Rule("C20.R4", "RPC and Electrum: the failing edge of the window test always reaches a confirmation report with a non-nil error before returning")
 	w := c.W
 	x := &c20X{c: c, w: w, callers: map[*ssa.Function][]ssa.CallInstruction{}, memo: map[ssa.Value]string{}, busy: map[ssa.Value]bool{},
-		k: map[string]int64{}, infeas: map[*ssa.Function]map[an.Edge]bool{}, notes: map[*ssa.Function][]string{}}
+		k: map[string]int64{}, merges: map[string][]string{}, opaqueTerms: map[string]bool{}, infeas: map[*ssa.Function]map[an.Edge]bool{}, notes: map[*ssa.Function][]string{}}
 	x.txw, x.obs = w.Named("swap", "TxWatcher"), w.Named("electrum", "TXObserver")
 	if x.txw == nil || x.obs == nil {
 		c.Anchor("swap.TxWatcher / electrum.TXObserver do not resolve")
@@ -207,6 +220,8 @@ func runC20(c *an.Check) {
 	x.r3()
 	x.r4(conf)
 	x.r5()
+	x.r6(csv)
+	x.r7()
 }
 
 // ---- small lookups -----------------------------------------------------------------------
@@ -493,8 +508,22 @@ func (x *c20X) role1(v ssa.Value, bind c20Bind, d int) string {
 				return x.role(args[0], bind, d+1)
 			}
 		}
+	case *ssa.Phi:
+		// leaf-based: a phi is the operand only if every incoming value is that operand
+		var leaves []string
+		for _, e := range t.Edges {
+			leaves = append(leaves, x.role(e, bind, d+1))
+		}
+		return x.merged("phi", "|", leaves)
 	case *ssa.Call:
 		name, args := w.Info(t).Name, t.Call.Args
+		if (name == "builtin:min" || name == "builtin:max") && len(args) > 0 {
+			var leaves []string
+			for _, a := range args {
+				leaves = append(leaves, x.role(a, bind, d+1))
+			}
+			return x.merged(strings.TrimPrefix(name, "builtin:"), ",", leaves)
+		}
 		switch name {
 		case "func:(" + c20HashPkg + ".Hash).String", "func:(*" + c20HashPkg + ".Hash).String",
 			"func:(*" + c20HashPkg + ".Hash).CloneBytes", "func:encoding/hex.EncodeToString":
@@ -504,6 +533,34 @@ func (x *c20X) role1(v ssa.Value, bind c20Bind, d int) string {
 		}
 	}
 	return w.Term(v)
+}
+
+// merged names a value that merges several sources (phi, min, max): the common
+// role when all sources agree, otherwise a merged term whose leaves are recorded.
+func (x *c20X) merged(op, sep string, leaves []string) string {
+	set := map[string]bool{}
+	for _, l := range leaves {
+		if sub, ok := x.merges[l]; ok {
+			for _, y := range sub {
+				set[y] = true
+			}
+			continue
+		}
+		set[l] = true
+	}
+	ks := sortedKeys(set)
+	if len(ks) == 1 {
+		return ks[0]
+	}
+	name := op + "(" + strings.Join(ks, sep) + ")"
+	x.merges[name] = ks
+	return name
+}
+
+// c20Untraceable: the role is an engine fallback name for a value of unknown origin.
+func c20Untraceable(r string) bool {
+	return strings.HasPrefix(r, "<*ssa.") || strings.HasPrefix(r, "param#") || strings.HasPrefix(r, "freevar:") || strings.HasPrefix(r, "var:") ||
+		strings.HasPrefix(r, "var(") || strings.Contains(r, "…") || strings.Contains(r, "↺") || r == "?"
 }
 
 func (x *c20X) prodWriters(key string) []*ssa.Store {
@@ -561,6 +618,28 @@ func (x *c20X) lin(v ssa.Value, bind c20Bind, d int) c20L {
 	if d > 8 {
 		return leaf()
 	}
+	if call, ok := v.(*ssa.Call); ok {
+		// a pure arithmetic helper of the module (one block, one integer result computed
+		// from its parameters): inline it with the call's arguments
+		if g := call.Common().StaticCallee(); g != nil && x.w.InModule(g) && g.Blocks != nil && c20IsInt(call.Type()) {
+			if res := c20PureArith(g); res != nil {
+				b2 := c20Bind{}
+				for i, p := range g.Params {
+					if i < len(call.Call.Args) {
+						a := call.Call.Args[i]
+						if ap, isP := c20Strip(a).(*ssa.Parameter); isP && bind[ap] != nil {
+							a = bind[ap]
+						}
+						b2[p] = a
+					}
+				}
+				return x.linBound(res, b2, bind, d+1)
+			}
+			if !x.modelled(g) && "call:"+x.w.Info(call).Name != "call:func:(*lnd.TxWatcher).GetBlockHeight" {
+				x.opaqueTerms[x.role(v, bind, 0)] = true
+			}
+		}
+	}
 	switch t := v.(type) {
 	case *ssa.Const:
 		if i, ok := an.ConstInt(t); ok {
@@ -615,6 +694,40 @@ func (x *c20X) lin(v ssa.Value, bind c20Bind, d int) c20L {
 		}
 	}
 	return leaf()
+}
+
+// linBound linearises an expression of an inlined helper: its parameters stand for
+// the bound argument values, which are named in the caller's context.
+func (x *c20X) linBound(v ssa.Value, b2 c20Bind, outer c20Bind, d int) c20L {
+	merged := c20Bind{}
+	for k, a := range outer {
+		merged[k] = a
+	}
+	for k, a := range b2 {
+		merged[k] = a
+	}
+	return x.lin(v, merged, d)
+}
+
+// c20PureArith: fn is one block that only computes (conversions, + - *) and returns
+// one integer; returns the returned value.
+func c20PureArith(fn *ssa.Function) ssa.Value {
+	if len(fn.Blocks) != 1 || fn.Signature.Results().Len() != 1 || !c20IsInt(fn.Signature.Results().At(0).Type()) {
+		return nil
+	}
+	var res ssa.Value
+	for _, in := range fn.Blocks[0].Instrs {
+		switch t := in.(type) {
+		case *ssa.BinOp, *ssa.Convert, *ssa.ChangeType, *ssa.DebugRef:
+		case *ssa.Return:
+			if len(t.Results) == 1 {
+				res = t.Results[0]
+			}
+		default:
+			return nil
+		}
+	}
+	return res
 }
 
 // cmp builds the fact "bo holds" / "bo does not hold" with role-named terms,
@@ -969,6 +1082,32 @@ func (x *c20X) valueAlts(v ssa.Value, want c20Want, bind c20Bind, base []an.Fact
 		}
 		return out, true
 	}
+	if ld, ok := v.(*ssa.UnOp); ok && ld.Op == token.MUL {
+		if al, ok := ld.X.(*ssa.Alloc); ok {
+			// a local / a result cell spilled because of defer: one way per reaching store
+			stores, fromEntry := an.StoresReaching(ld, al)
+			var out [][]an.Fact
+			if fromEntry { // zero value: false / nil
+				if want == c20False || want == c20Nil {
+					out = append(out, base)
+				}
+			}
+			for _, sv := range stores {
+				fs := append([]an.Fact{}, base...)
+				raw := append([]an.Fact{}, rawBase...)
+				for _, df := range x.w.FactsDominating(sv) {
+					fs = append(fs, x.norm(df, bind))
+					raw = append(raw, df)
+				}
+				sub, ok := x.valueAlts(sv.Val, want, bind, fs, raw, d+1)
+				if !ok {
+					return nil, false
+				}
+				out = append(out, sub...)
+			}
+			return out, true
+		}
+	}
 	if isBool {
 		return nil, false
 	}
@@ -1054,12 +1193,41 @@ func c20Describe(groups []c20Group) string {
 	return strings.Join(parts, " ; ")
 }
 
-func c20Lin(rel string, konst int64, kv ...interface{}) func(an.Fact) bool {
+// c20Spec builds a linear spec Σ coef·term + Const Rel 0 over exact term names.
+func c20Spec(rel string, konst int64, kv ...interface{}) an.LinSpec {
 	spec := an.LinSpec{Rel: rel, Const: konst, Terms: map[string]int64{}}
 	for i := 0; i+1 < len(kv); i += 2 {
 		spec.Terms[kv[i].(string)] = int64(kv[i+1].(int))
 	}
-	return func(f an.Fact) bool { return an.MatchLin(f, spec) }
+	return spec
+}
+
+// c20Exact matches a fact against a spec with EXACT term names (an.MatchLin matches
+// names by substring: a merged term such as phi(REG_START|field:confirmationEvent.blockHeight)
+// would pass for the event's own height). Operands are named by role, so exact
+// equality is what "the same operand" means.
+func c20Exact(spec an.LinSpec) func(an.Fact) bool {
+	return func(f an.Fact) bool {
+		if f.NonNum || f.Rel != spec.Rel || f.Terms == nil || len(f.Terms) != len(spec.Terms) {
+			return false
+		}
+		try := func(sign int64) bool {
+			if f.Const != sign*spec.Const {
+				return false
+			}
+			for k, c := range spec.Terms {
+				if fc, ok := f.Terms[k]; !ok || fc != sign*c {
+					return false
+				}
+			}
+			return true
+		}
+		return try(1) || ((spec.Rel == "==" || spec.Rel == "!=") && try(-1))
+	}
+}
+
+func c20Lin(rel string, konst int64, kv ...interface{}) func(an.Fact) bool {
+	return c20Exact(c20Spec(rel, konst, kv...))
 }
 
 // errNilOn: the fact says "the error result of `call` is nil".
@@ -1193,6 +1361,11 @@ func (x *c20X) lift(s *c20Site) []*c20Site {
 	if fn.Parent() != nil || c20ImplOf(fn, x.txw) || c20ImplOf(fn, x.obs) || len(x.callers[fn]) == 0 {
 		return nil
 	}
+	for _, call := range x.callers[fn] {
+		if _, sync := call.(*ssa.Call); !sync {
+			return nil // started with go / defer: the helper runs on its own, its report is judged inside it
+		}
+	}
 	anyParam := false
 	for _, v := range []ssa.Value{s.swapID, s.txHex, s.err} {
 		if v == nil {
@@ -1214,7 +1387,7 @@ func (x *c20X) lift(s *c20Site) []*c20Site {
 	var out []*c20Site
 	for _, call := range x.callers[fn] {
 		args := call.Common().Args
-		out = append(out, &c20Site{kind: s.kind, fn: call.Parent(), instr: call, swapID: mapArg(s.swapID, args), txHex: mapArg(s.txHex, args), err: mapArg(s.err, args), via: fn, viaOK: viaOK})
+		out = append(out, &c20Site{kind: s.kind, fn: call.Parent(), instr: call, swapID: mapArg(s.swapID, args), txHex: mapArg(s.txHex, args), err: mapArg(s.err, args), via: fn, viaOK: viaOK, raw: s.instr})
 	}
 	return out
 }
@@ -1323,6 +1496,98 @@ func (x *c20X) judge(rule, cons, pos string, ok bool, g []c20Group, okDetail, ba
 	}
 }
 
+// judgeLin: like judge for a depth / window guard given as linear specs over exact
+// operand names. When no fact matches but some fact compares a MERGE (phi, min,
+// max) that contains the expected operand next to other sources, the verdict is
+// leaf-based: a traceable foreign source is a violation (the depth is not computed
+// from the operand alone), an untraceable one leaves the obligation undecided.
+func (x *c20X) judgeLin(rule, cons, pos string, g []c20Group, okDetail, badDetail string, specs ...an.LinSpec) {
+	for _, sp := range specs {
+		if c20Holds(g, c20Exact(sp)) {
+			x.c.OK(rule, cons, pos, okDetail)
+			return
+		}
+	}
+	var facts []an.Fact
+	for gi, gr := range g {
+		if gi == 0 {
+			facts = append(facts, gr.direct...)
+		}
+		for _, alt := range gr.alts {
+			facts = append(facts, alt...)
+		}
+	}
+	for _, sp := range specs {
+		for _, f := range facts {
+			for t := range f.Terms {
+				leaves, ok := x.merges[t]
+				if !ok {
+					continue
+				}
+				for k, ck := range sp.Terms {
+					// the fact must be the required test with the operand k replaced by the merge t
+					if f.NonNum || f.Rel != sp.Rel || f.Const != sp.Const || len(f.Terms) != len(sp.Terms) || f.Terms[t] != ck {
+						continue
+					}
+					same := true
+					for k2, c2 := range sp.Terms {
+						if k2 != k && f.Terms[k2] != c2 {
+							same = false
+						}
+					}
+					if !same {
+						continue
+					}
+					has := false
+					var foreign []string
+					untraceable := false
+					for _, l := range leaves {
+						if l == k {
+							has = true
+							continue
+						}
+						foreign = append(foreign, l)
+						if c20Untraceable(l) {
+							untraceable = true
+						}
+					}
+					if !has {
+						continue
+					}
+					msg := badDetail + " — the test that is there (" + f.String() + ") does not use " + k + " alone but the merge " + t + ": the operand is replaced by " + strings.Join(foreign, ", ") + " on some path"
+					if untraceable {
+						x.c.Unknown(rule, cons, pos, msg+", whose origin cannot be traced")
+					} else {
+						x.c.Bad(rule, cons, pos, msg)
+					}
+					return
+				}
+			}
+		}
+	}
+	var opq []string
+	for _, f := range facts {
+		for t := range f.Terms {
+			if x.opaqueTerms[t] {
+				keyed := false
+				for _, sp := range specs {
+					if _, ok := sp.Terms[t]; ok {
+						keyed = true
+					}
+				}
+				if !keyed {
+					opq = append(opq, t)
+				}
+			}
+		}
+	}
+	if len(opq) > 0 {
+		x.c.Unknown(rule, cons, pos, badDetail+" — but a test on the way compares the result of an in-module helper this rule cannot look into ("+strings.Join(opq, ", ")+"), which may compute the required quantity")
+		return
+	}
+	x.judge(rule, cons, pos, false, g, okDetail, badDetail)
+}
+
 // ---- R1 -----------------------------------------------------------------------------------
 
 func (x *c20X) r1(s *c20Site) {
@@ -1332,6 +1597,10 @@ func (x *c20X) r1(s *c20Site) {
 	need := func(sub string, ok bool, what string) {
 		x.judge("C20.R1", s.name+" :: "+sub, pos, ok, g, what+" dominates the report",
 			"a confirmation report with a possibly-nil error is not dominated by "+what+". Facts that do hold: "+c20Describe(g))
+	}
+	needLin := func(sub string, what string, specs ...an.LinSpec) {
+		x.judgeLin("C20.R1", s.name+" :: "+sub, pos, g, what+" dominates the report",
+			"a confirmation report with a possibly-nil error is not dominated by "+what+". Facts that do hold: "+c20Describe(g), specs...)
 	}
 	txRole := x.role(s.txHex, nil, 0)
 	lookupOK := func(wantRole string) {
@@ -1357,24 +1626,22 @@ func (x *c20X) r1(s *c20Site) {
 			c.Unknown("C20.R1", cons, pos, "cannot trace the reported raw transaction to the lookup call: "+bad)
 		}
 	}
-	window := c20Lin(">", 0, "REG_START", 1, "REG_WINDOW", 1, "CUR", -1)
+	window := c20Spec(">", 0, "REG_START", 1, "REG_WINDOW", 1, "CUR", -1)
 	switch w.FnRel(s.fn) {
 	case "txwatcher":
-		need("window", c20Holds(g, window), "the open-window test start+window-current > 0 on the registered start/window")
-		need("depth", c20Holds(g, c20Lin(">=", 1, "CUR", 1, "FIRSTSEEN[txid,start,vout]", -1, "field:BlockchainRpcTxWatcher.requiredConfs", -1)),
-			"the depth test current-(firstSeen-1) >= requiredConfs with firstSeen looked up for the registered (txid,start,vout)")
+		needLin("window", "the open-window test start+window-current > 0 on the registered start/window", window)
+		needLin("depth", "the depth test current-(firstSeen-1) >= requiredConfs with firstSeen looked up for the registered (txid,start,vout)", c20Spec(">=", 1, "CUR", 1, "FIRSTSEEN[txid,start,vout]", -1, "field:BlockchainRpcTxWatcher.requiredConfs", -1))
 		lookupOK("RAWTX[txid,start,vout]")
 	case "electrum":
-		need("window", c20Holds(g, window), "the open-window test start+window-current > 0 on the registered start/window")
-		need("depth", c20Holds(g, c20Lin(">=", 1-x.k["LiquidConfs"], "CUR", 1, "TXHEIGHT[txid]", -1)),
-			fmt.Sprintf("the depth test tip-txHeight+1 >= onchain.LiquidConfs (%d) for the registered txid", x.k["LiquidConfs"]))
-		need("tip>0", c20Holds(g, c20Lin(">", 0, "CUR", 1)), "tip > 0")
-		need("txHeight>0", c20Holds(g, c20Lin(">", 0, "TXHEIGHT[txid]", 1)), "txHeight > 0 (Electrum reports unconfirmed transactions with height <= 0)")
-		need("txHeight<=tip", c20Holds(g, c20Lin(">=", 0, "CUR", 1, "TXHEIGHT[txid]", -1)), "txHeight <= tip")
+		needLin("window", "the open-window test start+window-current > 0 on the registered start/window", window)
+		needLin("depth", fmt.Sprintf("the depth test tip-txHeight+1 >= onchain.LiquidConfs (%d) for the registered txid", x.k["LiquidConfs"]), c20Spec(">=", 1-x.k["LiquidConfs"], "CUR", 1, "TXHEIGHT[txid]", -1))
+		needLin("tip>0", "tip > 0", c20Spec(">", 0, "CUR", 1))
+		needLin("txHeight>0", "txHeight > 0 (Electrum reports unconfirmed transactions with height <= 0)", c20Spec(">", 0, "TXHEIGHT[txid]", 1))
+		needLin("txHeight<=tip", "txHeight <= tip", c20Spec(">=", 0, "CUR", 1, "TXHEIGHT[txid]", -1))
 		lookupOK("RAWTX[txid]")
 	case "lnd":
-		need("safety limit", c20Holds(g, c20Lin(">", x.k["BitcoinCsvSafetyLimit"]-1, "confirmationEvent.blockHeight", 1, "lnd.TxWatcher).GetBlockHeight#0", -1)),
-			fmt.Sprintf("the safety test current-confHeight+1 < onchain.BitcoinCsvSafetyLimit (%d)", x.k["BitcoinCsvSafetyLimit"]))
+		needLin("safety limit", fmt.Sprintf("the safety test current-confHeight+1 < onchain.BitcoinCsvSafetyLimit (%d) with confHeight the confirmation event's own height", x.k["BitcoinCsvSafetyLimit"]),
+			c20Spec(">", x.k["BitcoinCsvSafetyLimit"]-1, "field:confirmationEvent.blockHeight", 1, "call:func:(*lnd.TxWatcher).GetBlockHeight#0", -1))
 		need("height lookup", c20Holds(g, func(f an.Fact) bool { return an.EqIs(f, "==", "lnd.TxWatcher).GetBlockHeight#1", "nil") }), "the nil-error edge of GetBlockHeight")
 		_, txConst := c20Strip(s.txHex).(*ssa.Const)
 		switch {
@@ -1577,23 +1844,23 @@ func (x *c20X) r2(s *c20Site) {
 	c, w := x.c, x.w
 	pos := w.Pos(s.instr.Pos())
 	g := x.factsAt(s.instr)
-	need := func(sub string, ok bool, what string) {
-		x.judge("C20.R2", s.name+" :: "+sub, pos, ok, g, what+" dominates the report",
-			"a CSV-maturity report is not dominated by "+what+". Facts that do hold: "+c20Describe(g))
+	needLin := func(sub string, what string, specs ...an.LinSpec) {
+		x.judgeLin("C20.R2", s.name+" :: "+sub, pos, g, what+" dominates the report",
+			"a CSV-maturity report is not dominated by "+what+". Facts that do hold: "+c20Describe(g), specs...)
 	}
 	switch w.FnRel(s.fn) {
 	case "txwatcher":
-		need("depth", c20Holds(g, c20Lin(">=", 0, "CONFS[txid,vout]", 1, "REG_CSV", -1)), "confirmations(registered txid, vout) >= registered csv")
+		needLin("depth", "confirmations(registered txid, vout) >= registered csv", c20Spec(">=", 0, "CONFS[txid,vout]", 1, "REG_CSV", -1))
 	case "electrum":
-		need("depth", c20Holds(g, c20Lin(">=", 1, "CUR", 1, "TXHEIGHT[txid]", -1, "REG_CSV", -1)), "tip-txHeight+1 >= registered csv for the registered txid")
-		need("tip>0", c20Holds(g, c20Lin(">", 0, "CUR", 1)), "tip > 0")
-		need("txHeight>0", c20Holds(g, c20Lin(">", 0, "TXHEIGHT[txid]", 1)), "txHeight > 0")
-		need("txHeight<=tip", c20Holds(g, c20Lin(">=", 0, "CUR", 1, "TXHEIGHT[txid]", -1)), "txHeight <= tip")
+		needLin("depth", "tip-txHeight+1 >= registered csv for the registered txid", c20Spec(">=", 1, "CUR", 1, "TXHEIGHT[txid]", -1, "REG_CSV", -1))
+		needLin("tip>0", "tip > 0", c20Spec(">", 0, "CUR", 1))
+		needLin("txHeight>0", "txHeight > 0", c20Spec(">", 0, "TXHEIGHT[txid]", 1))
+		needLin("txHeight<=tip", "txHeight <= tip", c20Spec(">=", 0, "CUR", 1, "TXHEIGHT[txid]", -1))
 	case "lnd":
 		k := 1 - x.k["BitcoinCsv"]
-		ok := c20Holds(g, c20Lin(">=", k, "BlockEpoch.Height", 1, "confirmationEvent.blockHeight", -1)) ||
-			c20Holds(g, c20Lin(">=", k, "lnd.TxWatcher).GetBlockHeight#0", 1, "confirmationEvent.blockHeight", -1))
-		need("depth", ok, fmt.Sprintf("height-confHeight+1 >= onchain.BitcoinCsv (%d)", x.k["BitcoinCsv"]))
+		needLin("depth", fmt.Sprintf("height-confHeight+1 >= onchain.BitcoinCsv (%d) with confHeight the confirmation event's own height", x.k["BitcoinCsv"]),
+			c20Spec(">=", k, "field:BlockEpoch.Height", 1, "field:confirmationEvent.blockHeight", -1),
+			c20Spec(">=", k, "call:func:(*lnd.TxWatcher).GetBlockHeight#0", 1, "field:confirmationEvent.blockHeight", -1))
 	default:
 		c.Unknown("C20.R2", s.name, pos, "CSV report in a package whose back-end is not modelled (txwatcher, electrum, lnd)")
 	}
@@ -2199,6 +2466,24 @@ func c20ReturnsTrue(v ssa.Value, afterSite map[*ssa.BasicBlock]bool, d int) int 
 			}
 		}
 		return res
+	case *ssa.UnOp:
+		if al, ok := t.X.(*ssa.Alloc); ok && t.Op == token.MUL && d <= 3 {
+			stores, fromEntry := an.StoresReaching(t, al)
+			if fromEntry {
+				return -1
+			}
+			res := 1
+			for _, sv := range stores {
+				r := c20ReturnsTrue(sv.Val, afterSite, d+1)
+				if !afterSite[sv.Block()] && r != 1 {
+					r = -1 // written before the report: whether it survives until the return is not tracked
+				}
+				if r < res {
+					res = r
+				}
+			}
+			return res
+		}
 	}
 	return -1
 }
@@ -2315,6 +2600,7 @@ func (x *c20X) r3Removal(s *c20Site, call *ssa.Call, okE []an.Edge, nx *ssa.Next
 		}
 	}
 	_ = fn
+	x.r6Scan(s.name+" :: scan serialised (select → report → remove)", pos, fn, []ssa.Instruction{nx, s.instr, removal}, "selecting the entry, the callback and the removal")
 	name := "delete"
 	if ci, ok := removal.(ssa.CallInstruction); ok {
 		name = w.Info(ci).Name
@@ -2349,6 +2635,7 @@ func (x *c20X) r3Subscribers() {
 			}
 			// removal calls: static callees that (transitively) rewrite the list field and receive this observer
 			removal := map[*ssa.BasicBlock]bool{}
+			var removalCalls []ssa.Instruction
 			rewriters := 0
 			if x.writesField(fn, listKey, 0) {
 				rewriters++ // the loop function filters the list itself
@@ -2370,6 +2657,7 @@ func (x *c20X) r3Subscribers() {
 				for _, a := range cand.Common().Args {
 					if c20Settle(a) == obsV {
 						removal[cand.Block()] = true
+						removalCalls = append(removalCalls, cand)
 					}
 				}
 			}
@@ -2381,6 +2669,7 @@ func (x *c20X) r3Subscribers() {
 				}
 				continue
 			}
+			x.r6Scan(w.FuncName(fn)+" :: scan serialised (observer report → deregister)", pos, fn, append([]ssa.Instruction{call}, removalCalls...), "the observer callback and the deregistration")
 			var flagV, errV ssa.Value
 			for _, v := range an.ResultValues(call, 0) {
 				flagV = v
@@ -2663,4 +2952,587 @@ func c20DescribeNorm(x *c20X, fn *ssa.Function) string {
 		fs = append(fs, x.norm(f, nil))
 	}
 	return an.DescribeFacts(fs)
+}
+
+// ---- R6: serialised CSV reports -------------------------------------------------------------
+
+// heldDeep: lock classes (write mode) that are certainly held just before instr:
+// acquired in the function itself, or held by every synchronous caller (VTA call
+// graph of the C18 lock engine) and not released on the way. A go statement
+// starts with no lock.
+func (x *c20X) heldDeep(in ssa.Instruction) map[string]bool {
+	e := c18Get(x.w)
+	var entry func(fn *ssa.Function, d int, busy map[*ssa.Function]bool) map[string]bool
+	at := func(fn *ssa.Function, must, relMay c18Set, d int, busy map[*ssa.Function]bool) map[string]bool {
+		out := map[string]bool{}
+		for k := range must {
+			if !strings.HasSuffix(k, "#R") {
+				out[k] = true
+			}
+		}
+		for k := range entry(fn, d, busy) {
+			if !relMay[k] {
+				out[k] = true
+			}
+		}
+		return out
+	}
+	entry = func(fn *ssa.Function, d int, busy map[*ssa.Function]bool) map[string]bool {
+		if d > 4 || busy[fn] || len(e.callers[fn]) == 0 {
+			return nil
+		}
+		busy[fn] = true
+		defer delete(busy, fn)
+		var common map[string]bool
+		for i, s := range e.callers[fn] {
+			var h map[string]bool
+			if !s.isGo && !s.isDefer {
+				h = at(s.fn, s.must, s.relMay, d+1, busy)
+			}
+			if i == 0 {
+				common = h
+				continue
+			}
+			for k := range common {
+				if !h[k] {
+					delete(common, k)
+				}
+			}
+		}
+		return common
+	}
+	st := e.stateAt(in)
+	return at(in.Parent(), st.must, st.relMay, 0, map[*ssa.Function]bool{})
+}
+
+// lockStateUnreliable: the C18 lock engine could not model a lock operation in the
+// function of instr or in a synchronous caller (the held-lock sets there are not
+// to be trusted): returns what it could not model, "" otherwise.
+func (x *c20X) lockStateUnreliable(in ssa.Instruction) string {
+	e := c18Get(x.w)
+	seen := map[*ssa.Function]bool{}
+	var why []string
+	var up func(fn *ssa.Function, d int)
+	up = func(fn *ssa.Function, d int) {
+		if seen[fn] || d > 4 {
+			return
+		}
+		seen[fn] = true
+		for _, u := range e.unknown {
+			if u.fn == fn && u.state {
+				why = append(why, x.w.FuncName(fn)+": "+u.what)
+			}
+		}
+		for _, s := range e.callers[fn] {
+			if !s.isGo && !s.isDefer {
+				up(s.fn, d+1)
+			}
+		}
+	}
+	up(in.Parent(), 0)
+	return strings.Join(why, "; ")
+}
+
+// goRoots: the goroutines / API entry points from which fn can be reached synchronously.
+func (x *c20X) goRoots(fn *ssa.Function) map[string]bool {
+	e := c18Get(x.w)
+	roots := map[string]bool{}
+	seen := map[*ssa.Function]bool{}
+	var up func(f *ssa.Function, d int)
+	up = func(f *ssa.Function, d int) {
+		if seen[f] {
+			return
+		}
+		seen[f] = true
+		if len(e.callers[f]) == 0 || d > 6 {
+			roots["entry "+x.w.FuncName(f)] = true
+			return
+		}
+		for _, s := range e.callers[f] {
+			if s.isGo {
+				roots["go statement at "+x.w.Pos(s.instr.Pos())] = true
+				continue
+			}
+			up(s.fn, d+1)
+		}
+	}
+	up(fn, 0)
+	return roots
+}
+
+func c20SetString(m map[string]bool) string {
+	if len(m) == 0 {
+		return "no lock"
+	}
+	return strings.Join(sortedKeys(m), ", ")
+}
+
+func c20Intersect(a, b map[string]bool) map[string]bool {
+	out := map[string]bool{}
+	for k := range a {
+		if b[k] {
+			out[k] = true
+		}
+	}
+	return out
+}
+
+// c20CallbackField: the struct field the reported func value is loaded from.
+func c20CallbackField(s *c20Site) string {
+	if s.proxy {
+		return ""
+	}
+	return c20LoadedField(c20Settle(s.dyn().Common().Value))
+}
+
+func (x *c20X) r6(csv []*c20Site) {
+	c, w := x.c, x.w
+	groups := map[string][]*c20Site{}
+	seenDyn := map[ssa.CallInstruction]bool{}
+	for _, s := range csv {
+		if seenDyn[s.dyn()] {
+			continue // several lifted call sites of one wrapper: one dynamic call
+		}
+		seenDyn[s.dyn()] = true
+		k := c20CallbackField(s)
+		if k == "" {
+			k = "?" + w.FuncName(s.fn)
+		}
+		groups[k] = append(groups[k], s)
+	}
+	watchLists := map[string]bool{}
+	for _, s := range x.sites {
+		if _, key := c20RangeOf(s.swapID); key != "" {
+			watchLists[key] = true
+		}
+	}
+	for _, k := range sortedKeysOfSites(groups) {
+		sites := groups[k]
+		cons := "CSV callback " + k + " :: call sites serialised"
+		if strings.HasPrefix(k, "?") {
+			c.Unknown("C20.R6", cons, w.Pos(sites[0].instr.Pos()), "the reported func value is not loaded from a field of the watcher; cannot group its call sites")
+			continue
+		}
+		held := map[*c20Site]map[string]bool{}
+		var live []*c20Site
+		for _, s := range sites {
+			// a site that reports before its registration is inserted into a scanned list cannot collide with the scan
+			if x.reportsBeforeListing(s, watchLists) {
+				c.OK("C20.R6", s.name+" :: reports before the registration is listed", w.Pos(s.instr.Pos()), "the watch-list insertion is only reachable after this report")
+				continue
+			}
+			held[s] = x.heldDeep(s.dyn())
+			live = append(live, s)
+		}
+		if len(live) <= 1 {
+			if len(live) == 1 {
+				c.OK("C20.R6", cons, w.Pos(live[0].instr.Pos()), "one call site ("+live[0].name+", holding "+c20SetString(held[live[0]])+")")
+			}
+			continue
+		}
+		common := held[live[0]]
+		for _, s := range live[1:] {
+			common = c20Intersect(common, held[s])
+		}
+		if len(common) > 0 {
+			c.OK("C20.R6", cons, w.Pos(live[0].instr.Pos()), fmt.Sprintf("all %d call sites run under %s", len(live), c20SetString(common)))
+			continue
+		}
+		positive := false
+		for _, s := range live {
+			var others map[string]bool
+			var names []string
+			for i, t := range live {
+				if t == s {
+					continue
+				}
+				names = append(names, t.name+" at "+w.Pos(t.instr.Pos())+" (holds "+c20SetString(held[t])+")")
+				if others == nil && i >= 0 {
+					others = held[t]
+				} else {
+					others = c20Intersect(others, held[t])
+				}
+			}
+			if len(others) > 0 && len(c20Intersect(others, held[s])) == 0 {
+				positive = true
+				if why := x.lockStateUnreliable(s.dyn()); why != "" {
+					c.Unknown("C20.R6", s.name+" :: serialised with the other CSV reports", w.Pos(s.instr.Pos()), "no common lock seen, but the lock state on the way to this call could not be modelled: "+why)
+					continue
+				}
+				c.Bad("C20.R6", s.name+" :: serialised with the other CSV reports", w.Pos(s.instr.Pos()),
+					"this call of the CSV callback runs with "+c20SetString(held[s])+" held, while every other call site of "+k+" holds "+c20SetString(others)+": "+strings.Join(names, "; ")+
+						". A report that is still running here overlaps a report of the same registration there (entries are removed only after the callback returns): the registration is reported twice")
+			}
+		}
+		if !positive {
+			var names []string
+			for _, t := range live {
+				names = append(names, t.name+" (holds "+c20SetString(held[t])+")")
+			}
+			c.Unknown("C20.R6", cons, w.Pos(live[0].instr.Pos()), "several call sites without a common lock and without a lock that all but one hold: "+strings.Join(names, "; "))
+		}
+	}
+	c.AtLeast("C20.R6", "CSV callback fields with a report", len(groups), 3)
+}
+
+func sortedKeysOfSites(m map[string][]*c20Site) []string {
+	k := map[string]bool{}
+	for s := range m {
+		k[s] = true
+	}
+	return sortedKeys(k)
+}
+
+// reportsBeforeListing: the function inserts into a scanned watch list, and every
+// such insertion lies after the report (not reachable from the entry around it).
+func (x *c20X) reportsBeforeListing(s *c20Site, watchLists map[string]bool) bool {
+	fn := s.fn
+	var ins []*ssa.BasicBlock
+	for _, b := range fn.Blocks {
+		for _, in := range b.Instrs {
+			if mu, ok := in.(*ssa.MapUpdate); ok && watchLists[c20LoadedField(mu.Map)] {
+				if b == s.instr.Block() && an.InstrIndex(in) < an.InstrIndex(s.instr) {
+					return false
+				}
+				ins = append(ins, b)
+			}
+		}
+	}
+	if len(ins) == 0 {
+		return false
+	}
+	reach := an.ReachBlocks([]*ssa.BasicBlock{fn.Blocks[0]}, nil, map[*ssa.BasicBlock]bool{s.instr.Block(): true})
+	for _, b := range ins {
+		if b != s.instr.Block() && reach[b] {
+			return false
+		}
+	}
+	return true
+}
+
+// r6Scan: a scan that selects an entry, reports it and removes it later must hold
+// one lock across the three steps when it can run concurrently with itself.
+func (x *c20X) r6Scan(cons, pos string, fn *ssa.Function, steps []ssa.Instruction, what string) {
+	c := x.c
+	roots := x.goRoots(fn)
+	var common map[string]bool
+	for i, in := range steps {
+		h := x.heldDeep(in)
+		if i == 0 {
+			common = h
+		} else {
+			common = c20Intersect(common, h)
+		}
+	}
+	switch {
+	case len(common) > 0:
+		c.OK("C20.R6", cons, pos, what+" run under "+c20SetString(common))
+	case len(roots) <= 1:
+		c.OK("C20.R6", cons, pos, "no lock is held across "+what+", but the scan is only started from "+c20SetString(roots))
+	case x.lockStateUnreliable(steps[0]) != "":
+		c.Unknown("C20.R6", cons, pos, "no lock seen across "+what+", but the lock state on the way could not be modelled: "+x.lockStateUnreliable(steps[0]))
+	default:
+		c.Bad("C20.R6", cons, pos, "no lock is held across "+what+" and the scan can run concurrently with itself (started from "+c20SetString(roots)+
+			"): a second scan that starts while a callback of the first is still running finds the entry still listed and reports the same registration again")
+	}
+}
+
+// ---- R7: monotone tip -----------------------------------------------------------------------
+
+// tipFields: integer fields of a swap.TxWatcher implementation whose load flows
+// into the height returned by its GetBlockHeight.
+func (x *c20X) tipFields() map[string]*ssa.Function {
+	out := map[string]*ssa.Function{}
+	for _, fn := range prodFuncs(x.w) {
+		if fn.Name() != "GetBlockHeight" || !c20ImplOf(fn, x.txw) {
+			continue
+		}
+		recv := an.NamedOf(fn.Signature.Recv().Type())
+		for _, r := range an.Returns(fn) {
+			if len(r.Results) == 0 {
+				continue
+			}
+			seen := map[ssa.Value]bool{}
+			var back func(v ssa.Value, d int)
+			back = func(v ssa.Value, d int) {
+				if v == nil || seen[v] || d > 6 {
+					return
+				}
+				seen[v] = true
+				switch t := v.(type) {
+				case *ssa.Convert:
+					back(t.X, d+1)
+				case *ssa.ChangeType:
+					back(t.X, d+1)
+				case *ssa.Phi:
+					for _, e := range t.Edges {
+						back(e, d+1)
+					}
+				case *ssa.BinOp:
+					back(t.X, d+1)
+					back(t.Y, d+1)
+				case *ssa.UnOp:
+					if t.Op != token.MUL {
+						return
+					}
+					if fa, ok := t.X.(*ssa.FieldAddr); ok && c20IsInt(t.Type()) {
+						if n := an.NamedOf(fa.X.Type()); n != nil && recv != nil && n.Obj() == recv.Obj() {
+							out[an.FieldName(fa.X.Type(), fa.Field)] = fn
+						}
+					} else if al, ok := t.X.(*ssa.Alloc); ok && al.Referrers() != nil {
+						// a local / a result cell spilled because of defer: every value stored into it
+						for _, rr := range *al.Referrers() {
+							if sv, ok := rr.(*ssa.Store); ok && sv.Addr == ssa.Value(al) {
+								back(sv.Val, d+1)
+							}
+						}
+					} else if s := c20CellValue(t.X); s != nil {
+						back(s, d+1)
+					}
+				}
+			}
+			back(r.Results[0], 0)
+		}
+	}
+	return out
+}
+
+// c20Way: one way of reaching a point on which the required fact does not hold.
+type c20Way struct {
+	via    []string
+	opaque bool
+}
+
+// uncovered lists the ways of reaching block b (back through predecessor edges,
+// and through the callers of a plain helper) on which no fact implies pred.
+func (x *c20X) uncovered(b *ssa.BasicBlock, pred func(an.Fact) bool, d int, onPath map[*ssa.BasicBlock]bool, via []string, callDepth int) []c20Way {
+	w := x.w
+	opq := false
+	for _, f := range w.FactsDominatingBlock(b) {
+		if x.implies(f, pred) {
+			return nil
+		}
+		if x.opaqueFact(f) != "" {
+			if _, ok := x.expand(f); !ok {
+				opq = true
+			}
+		}
+	}
+	fn := b.Parent()
+	if b == fn.Blocks[0] || len(b.Preds) == 0 {
+		// function entry: the guard may sit in front of every call of this helper
+		if callDepth < 2 && fn.Parent() == nil && !c20ImplOf(fn, x.txw) && !c20ImplOf(fn, x.obs) && len(x.callers[fn]) > 0 {
+			var out []c20Way
+			for _, call := range x.callers[fn] {
+				out = append(out, x.uncovered(call.Block(), pred, 8, map[*ssa.BasicBlock]bool{}, append(append([]string{}, via...), "called from "+w.FuncName(call.Parent())), callDepth+1)...)
+			}
+			for i := range out {
+				out[i].opaque = out[i].opaque || opq
+			}
+			return out
+		}
+		return []c20Way{{via: via, opaque: opq}}
+	}
+	if d == 0 {
+		return []c20Way{{via: append(append([]string{}, via...), "…"), opaque: true}}
+	}
+	onPath[b] = true
+	defer delete(onPath, b)
+	var out []c20Way
+	for _, p := range b.Preds {
+		if onPath[p] {
+			continue // a loop adds no new way
+		}
+		step := append([]string{}, via...)
+		covered := false
+		for _, ef := range w.Facts(fn) {
+			if ef.Edge.From != p || ef.Edge.To() != b || (len(p.Succs) == 2 && p.Succs[0] == p.Succs[1]) {
+				continue
+			}
+			if x.implies(ef, pred) {
+				covered = true
+			}
+			step = append(step, x.norm(ef, nil).String())
+			if x.opaqueFact(ef) != "" {
+				if _, ok := x.expand(ef); !ok {
+					opq = true
+				}
+			}
+		}
+		if covered {
+			continue
+		}
+		sub := x.uncovered(p, pred, d-1, onPath, step, callDepth)
+		for i := range sub {
+			sub[i].opaque = sub[i].opaque || opq
+		}
+		out = append(out, sub...)
+	}
+	return out
+}
+
+func (x *c20X) r7() {
+	c, w := x.c, x.w
+	tips := x.tipFields()
+	nStores := 0
+	for _, key := range sortedKeysOfFuncs(tips) {
+		oldTerm := "field:" + key
+		for _, st := range x.prodWriters(key) {
+			fn := st.Parent()
+			pos := w.Pos(st.Pos())
+			cons := fmt.Sprintf("%s store to %s", w.FuncName(fn), key)
+			if al, ok := st.Addr.(*ssa.FieldAddr); ok {
+				if _, isAlloc := al.X.(*ssa.Alloc); isAlloc {
+					continue // composite literal of a fresh watcher
+				}
+			}
+			nStores++
+			if _, isK := c20Strip(st.Val).(*ssa.Const); isK {
+				c.Unknown("C20.R7", cons, pos, "the tip is set to a constant: after that any lower height is accepted; monotonicity cannot be established")
+				continue
+			}
+			newTerm := x.role(st.Val, nil, 0)
+			if newTerm == oldTerm {
+				c.Unknown("C20.R7", cons, pos, "the stored height is derived from the tip itself")
+				continue
+			}
+			advance := c20Lin(">", 0, newTerm, 1, oldTerm, -1)
+			unset1 := c20Lin(">=", 0, oldTerm, -1)
+			unset2 := c20Lin("==", 0, oldTerm, 1)
+			pred := func(f an.Fact) bool { return advance(f) || unset1(f) || unset2(f) }
+			ways := x.uncovered(st.Block(), pred, 8, map[*ssa.BasicBlock]bool{}, nil, 0)
+			var bad, unk []string
+			for _, wy := range ways {
+				d := strings.Join(wy.via, " → ")
+				if d == "" {
+					d = "(no condition at all)"
+				}
+				if wy.opaque {
+					unk = append(unk, d)
+				} else {
+					bad = append(bad, d)
+				}
+			}
+			switch {
+			case len(ways) == 0:
+				c.OK("C20.R7", cons, pos, "every way to the store passes new > old ("+newTerm+" > "+oldTerm+") or old <= 0")
+			case len(bad) > 0:
+				c.Bad("C20.R7", cons, pos, "the tip "+key+" (what GetBlockHeight reports and the observers are evaluated against) is overwritten with "+newTerm+" on a way where neither new > old nor old <= 0 is established: "+strings.Join(bad, " | ")+
+					". A lagging server moves the tip backwards: GetBlockHeight regresses and a closed payment window looks open again")
+			default:
+				c.Unknown("C20.R7", cons, pos, "some way to the store is not covered by new > old / old <= 0 but passes conditions this rule cannot look into: "+strings.Join(unk, " | "))
+			}
+			x.r7Accept(st, key, 0)
+		}
+	}
+	c.AtLeast("C20.R7", "tip fields (fields reported by a GetBlockHeight implementation)", len(tips), 1)
+	c.AtLeast("C20.R7", "stores of a height into a tip field", nStores, 1)
+}
+
+func sortedKeysOfFuncs(m map[string]*ssa.Function) []string {
+	k := map[string]bool{}
+	for s := range m {
+		k[s] = true
+	}
+	return sortedKeys(k)
+}
+
+// r7Accept: the bool result of the accepting function (the flag that makes the
+// caller evaluate the observers) can be true only after the guarded tip store.
+func (x *c20X) r7Accept(st ssa.Instruction, key string, depth int) {
+	c, w := x.c, x.w
+	fn := st.Parent()
+	res := fn.Signature.Results()
+	hasBool := false
+	for i := 0; i < res.Len(); i++ {
+		if b, ok := res.At(i).Type().Underlying().(*types.Basic); ok && b.Kind() == types.Bool {
+			hasBool = true
+		}
+	}
+	if !hasBool && depth < 2 && fn.Parent() == nil && !c20ImplOf(fn, x.txw) {
+		// a setter helper: the accept flag is produced by its callers
+		for _, call := range x.callers[fn] {
+			if _, sync := call.(*ssa.Call); sync {
+				x.r7Accept(call, key, depth+1)
+			}
+		}
+		return
+	}
+	for i := 0; i < res.Len(); i++ {
+		b, ok := res.At(i).Type().Underlying().(*types.Basic)
+		if !ok || b.Kind() != types.Bool {
+			continue
+		}
+		cons := fmt.Sprintf("%s result #%d (run the observers) true only after the tip advanced", w.FuncName(fn), i)
+		verdict, where := 1, ""
+		for _, r := range an.Returns(fn) {
+			if i >= len(r.Results) || !c20BlockReachable(r.Block()) {
+				continue
+			}
+			v := x.acceptTrueOnlyAfter(r.Results[i], r.Block(), st, 0)
+			if v < verdict {
+				verdict, where = v, w.Pos(r.Pos())
+			}
+		}
+		switch verdict {
+		case 1:
+			c.OK("C20.R7", cons, w.Pos(fn.Pos()), "every return that can yield true lies behind the store to "+key)
+		case 0:
+			c.Bad("C20.R7", cons, where, "this return yields true although the tip "+key+" was not advanced on the way: the observers are evaluated for a header that is not newer than the tip")
+		default:
+			c.Unknown("C20.R7", cons, where, "cannot evaluate the returned flag (not a constant nor a phi of constants)")
+		}
+	}
+}
+
+// acceptTrueOnlyAfter: 1 = v is false or the store certainly executed before; 0 = v is
+// the constant true on a way that avoids the store; -1 = cannot tell.
+func (x *c20X) acceptTrueOnlyAfter(v ssa.Value, at *ssa.BasicBlock, st ssa.Instruction, d int) int {
+	passed := func(b *ssa.BasicBlock) bool {
+		if b == st.Block() {
+			return true
+		}
+		return !an.ReachBlocks([]*ssa.BasicBlock{b.Parent().Blocks[0]}, nil, map[*ssa.BasicBlock]bool{st.Block(): true})[b]
+	}
+	switch t := v.(type) {
+	case *ssa.Const:
+		if t.Value == nil || t.Value.Kind() != constant.Bool {
+			return -1
+		}
+		if !constant.BoolVal(t.Value) || passed(at) {
+			return 1
+		}
+		return 0
+	case *ssa.Phi:
+		if d > 3 {
+			return -1
+		}
+		res := 1
+		for i, e := range t.Edges {
+			if i >= len(t.Block().Preds) {
+				return -1
+			}
+			if r := x.acceptTrueOnlyAfter(e, t.Block().Preds[i], st, d+1); r < res {
+				res = r
+			}
+		}
+		return res
+	}
+	if ld, ok := v.(*ssa.UnOp); ok && ld.Op == token.MUL && d <= 3 {
+		if al, ok := ld.X.(*ssa.Alloc); ok {
+			// a result cell spilled because of defer: the stores that can be the last write
+			stores, _ := an.StoresReaching(ld, al) // no store at all = zero value = false
+			res := 1
+			for _, sv := range stores {
+				if r := x.acceptTrueOnlyAfter(sv.Val, sv.Block(), st, d+1); r < res {
+					res = r
+				}
+			}
+			return res
+		}
+	}
+	if passed(at) {
+		return 1
+	}
+	return -1
 }
